@@ -146,6 +146,16 @@ func exprString(e ast.Expr) string {
 	return "?"
 }
 
+func condString(e ast.Expr) string {
+	switch x := e.(type) {
+	case *ast.BinaryExpr:
+		return condString(x.X) + " " + x.Op.String() + " " + condString(x.Y)
+	case *ast.ParenExpr:
+		return "(" + condString(x.X) + ")"
+	}
+	return exprString(e)
+}
+
 func leanList(xs []string) string {
 	q := make([]string, len(xs))
 	for i, x := range xs {
@@ -703,6 +713,46 @@ func main() {
 	}
 	fmt.Fprintf(&out, "def readerIncrementsIndex : Bool := %s\ndef readerChecksEofAfterFinal : Bool := %s\ndef readerRequiresEmptyFinal : Bool := %s\n\n",
 		leanBool(indexIncr), leanBool(eofOnFinal), leanBool(finalEmpty))
+
+	// ---- 4b. early-return table of readNextFrame: every return between reading the frame header and the AEAD open,
+	// with the condition that guards it and whether it returns an error or nil. A frame must not be accepted (nil)
+	// before it went through Open.
+	preOpen := []string{}
+	openSeen := false
+	if fn := p.funcs["encryptedArchiveReader.readNextFrame"]; fn != nil && fn.Body != nil {
+		for _, st := range fn.Body.List {
+			isOpen := false
+			calls(st, func(c *ast.CallExpr, name string, selector bool) {
+				if selector && name == "Open" {
+					isOpen = true
+				}
+			})
+			if isOpen {
+				openSeen = true
+				break
+			}
+			cond := "unconditional"
+			if ifs, ok := st.(*ast.IfStmt); ok {
+				cond = condString(ifs.Cond)
+				if ifs.Init != nil {
+					if as, ok := ifs.Init.(*ast.AssignStmt); ok && len(as.Rhs) == 1 {
+						cond = exprString(as.Rhs[0]) + "; " + cond
+					}
+				}
+			}
+			ast.Inspect(st, func(x ast.Node) bool {
+				if r, ok := x.(*ast.ReturnStmt); ok {
+					kind := "error"
+					if len(r.Results) == 1 && exprString(r.Results[0]) == "nil" {
+						kind = "nil"
+					}
+					preOpen = append(preOpen, cond+" => "+kind)
+				}
+				return true
+			})
+		}
+	}
+	fmt.Fprintf(&out, "/-- returns of `readNextFrame` before the AEAD `Open`: guarding condition => error | nil -/\ndef framePreOpenReturns : List String := %s\ndef frameOpenReached : Bool := %s\n\n", leanList(preOpen), leanBool(openSeen))
 
 	// ---- 5. staging order of Unpack (encrypted) and of UnpackTarWithOptions (plain, since the F11 repair)
 	stagingKinds := func(fnName string, extractors map[string]bool) []string {
